@@ -998,6 +998,13 @@ class Sym:
                         return one
                     if (isinstance(o, ast.GtE) and n == 2) or (isinstance(o, ast.Gt) and n == 1):
                         return f_not(one)
+                if isinstance(x, Opq) and x.kind == "len" and x.meta and isinstance(x.meta[0], Coll):
+                    its = self.exact_items(x.meta[0], st)
+                    if its is not None and len(its) <= 8:
+                        # a collection whose elements are there under known conditions: len > m  <=>  some m + 1 of them hold
+                        m, positive = {ast.Gt: (n, True), ast.GtE: (n - 1, True), ast.Lt: (n - 1, False), ast.LtE: (n, False)}[type(o)]
+                        g = TRUE if m < 0 else f_or([f_and([c for _v, c in sub]) for sub in itertools.combinations(its, m + 1)])
+                        return g if positive else f_not(g)
                 if isinstance(x, Opq) and x.kind == "len" and x.meta:
                     t = self.truth(x.meta[0], st)
                     if (isinstance(o, ast.Gt) and n == 0) or (isinstance(o, ast.GtE) and n == 1):
@@ -1682,6 +1689,38 @@ class Sym:
             return res
         if name == "map" and len(args) >= 2 and not kwargs:
             return self.map_call(args[0], list(args[1:]), st, ctx, e)
+        if name == "iter" and len(args) == 1 and isinstance(args[0], Coll):
+            return args[0]
+        if name == "filter" and len(args) == 2 and not kwargs:
+            src = self.iterate(args[1], e.args[1], st, ctx, [])
+            items = self.exact_items(src, st)
+            if items is not None and len(items) <= MAX_UNROLL:
+                out = []
+                for x, c in items:
+                    saved = list(st.path)
+                    if c != TRUE:
+                        st.path.append(c)
+                    keep = self.truth(x if (isinstance(args[0], Const) and args[0].value is None) else self.call_value(args[0], [x], {}, st, ctx, e), st)
+                    st.path[:] = saved
+                    out.append((x, f_and([c, keep])))
+                return self.new_coll(st, "list", out)
+            # an unknown part of the elements: not a complete re-collection of anything
+            return self.new_coll(st, "list", [], False, deps=deps)
+        if name == "next" and len(args) in (1, 2) and not kwargs:
+            items = self.exact_items(args[0], st)
+            if items is not None and len(items) <= MAX_UNROLL:
+                # the first element that is there; the default (or StopIteration) when none is
+                alts, none_so_far = [], TRUE
+                for x, c in items:
+                    alts.append((f_and([none_so_far, c]), x))
+                    none_so_far = f_and([none_so_far, f_not(c)])
+                if len(args) == 2:
+                    alts.append((none_so_far, args[1]))
+                elif sat_path(st.path, none_so_far):
+                    stop = ast.copy_location(ast.Raise(exc=ast.Name(id="StopIteration", ctx=ast.Load()), cause=None), e)
+                    self._s_Raise(stop, st.fork(none_so_far), ctx)
+                    st.path.append(f_not(none_so_far))
+                return mk_phi(alts)
         if name in ("max", "min", "abs", "sum", "zip", "enumerate", "range", "map", "filter", "iter", "next", "open", "print", "type", "id", "hash", "round", "divmod", "ord", "chr", "callable", "issubclass", "vars", "dir", "format"):
             res = Opq(f"{name}({', '.join(key(a) for a in args)})#{self.fresh() if name in ('open', 'next', 'iter') else ''}".rstrip("#"), deps, kind="call")
             self.emit("call", name, args, None, st, ctx, e, ("b", "builtin", ()), res)
